@@ -152,9 +152,9 @@ def updateKnowledge (code : Array Line) (it : Nat) (ins : Instr)
     let rm := match yr with | some v => if v == ins.opd then !ins.prot else false | none => false
     (acc, xr, some ins.opd, .y, rm)
   | .DEC | .INC =>
-    (clearIf acc (· == ins.opd), clearIf xr (· == ins.opd), clearIf yr (· == ins.opd), flags, false)
-  | .INX | .DEX => (clearIf acc endsX, none, clearIf yr endsX, flags, false)
-  | .INY | .DEY => (clearIf acc endsY, clearIf xr endsY, none, flags, false)
+    (clearIf acc (· == ins.opd), clearIf xr (· == ins.opd), clearIf yr (· == ins.opd), .unknown, false)
+  | .INX | .DEX => (clearIf acc endsX, none, clearIf yr endsX, .x, false)
+  | .INY | .DEY => (clearIf acc endsY, clearIf xr endsY, none, .y, false)
   | .TAX =>
     let accX := match acc with | some v => endsX v | none => false
     (if accX then none else acc, if accX then none else acc, clearIf yr endsX, flags, false)
@@ -184,8 +184,8 @@ def settleSecond (s : OptSt) : Nat → Option OptSt
     | some j =>
       match s.code[j]? with
       | some (.instr _) => some s
-      | some (.label _) =>
-        -- restart after the label
+      | some (.label _) | some (.inline _ _) =>
+        -- restart after a label; inline assembly is a barrier too
         (match seekInstr s.code s.it with
          | none => none
          | some (f, it1) =>
